@@ -68,9 +68,11 @@ fn typed_labels_accepted_iff_legal_played_exactly_rejected_without_effect() {
     let crafted: Vec<Vec<&str>> = vec![
         vec!["e3", "e6", "Qf3", "Nf6", "Qe2", "Ng8", "Qd1", "Nf6"],
         vec!["Nf3", "Nf6", "Ng1", "Ng8", "e4", "e5", "Ke2", "Ke7", "Ke1", "Ke8"],
+        // two knights that share neither file nor rank reach the same square (b1 and e4 -> d2)
+        vec!["d3", "a6", "Nf3", "a5", "Ng5", "a4", "Ne4", "h6", "Ned2"],
     ];
     let mut r = Lcg(11);
-    for game_no in 0..6 {
+    for game_no in 0..7 {
         let mut game = Game::new(1);
         let mut previous_labels: Vec<String> = Vec::new();
         for ply in 0..12 {
@@ -78,6 +80,11 @@ fn typed_labels_accepted_iff_legal_played_exactly_rejected_without_effect() {
             let listed = game.enumerated_candidate_moves();
             if listed.is_empty() { break; }
             let labels: Vec<String> = listed.iter().map(|(_, l)| l.clone()).collect();
+            // a label names ONE move: two legal moves sharing a label make "plays precisely that move" unsatisfiable
+            for i in 0..listed.len() { for j in 0..i {
+                assert!(labels[i] != labels[j], "game {} ply {}: the legal moves {} and {} share the label `{}` (typing it cannot play both)",
+                        game_no, ply, listed[j].0.to_uci(), listed[i].0.to_uci(), labels[i]);
+            } }
             // labels of the other side in this position, and labels of the previous position, that are not labels now
             let mut other = game.board().clone();
             other.toggle_turn();
